@@ -2268,6 +2268,176 @@ func c09DirectedF23(r *vg.Rand) *c09Scn {
 	return sc
 }
 
+// F50: findNewPrimary made the responding witness primary BEFORE removeWitnesses, which refuses to
+// empty the witness list; when every other witness had been marked bad, the respondent ended up
+// primary AND witness, and in later forward verifications it confirmed its own headers.
+//
+// A self-witness scenario has two parts.  Call 1 drives the client into findNewPrimary(remove =
+// true) with the other witnesses answering malevolently BEFORE the witness pX answers with a
+// block (entry: "primary-bad" the primary returns ErrBadLightBlock for the requested height,
+// "backwards" the primary serves a forged header on the backwards walk, "seq-interim" sequential
+// mode, the primary serves an interim block without +2/3).  Call 2 is a forward verification of
+// height T2 for which pX serves a header (the genuine one, or one forged by a coalition just
+// above the trust level with a set of its own) and every other witness is of no use (others:
+// "noresp", "notfound", "behind", "bad").  Unrepaired code: the header is stored with pX alone
+// vouching for it.  Repaired code: call 1 leaves the providers alone.
+var (
+	c09SelfEntries = []string{"primary-bad", "backwards", "seq-interim"}
+	c09SelfOthers  = []string{"noresp", "notfound", "behind", "bad"}
+)
+
+type c09SelfOpt struct {
+	entry   string
+	others  []string // per other witness: its behaviour at T2
+	err1    []int    // per other witness: its error in call 1 (3 bad block, 4 context)
+	forged  bool
+	seq     bool
+	xpos    int  // position of pX among the witnesses
+	shuffle bool // random arrival order (else: the other witnesses first)
+	extra   bool // a further Update call
+}
+
+func c09SelfWitness(r *vg.Rand, o c09SelfOpt) *c09Scn {
+	sc := c09NewScn(r)
+	sc.sequential = o.seq
+	if r.Bool() {
+		sc.prune = 1000
+	}
+	sc.genChainP(int64(9+r.Intn(3)), []int64{2, 1, 1, 2})
+	n := sc.n
+	V := sc.vals[1]
+	tot := V.total()
+	level := tot * int64(sc.num) / int64(sc.den)
+	sc.root = 4
+	sc.rootHash = sc.ghash(sc.root)
+	T2 := sc.root + 2 + r.Int63n(2) // 6 or 7
+	var T1 int64
+	prim := sc.honestScript()
+	pk := ""
+	switch o.entry {
+	case "primary-bad":
+		T1 = T2 + 1
+		prim[T1] = []c09Reply{c09E(3)}
+		pk = fmt.Sprintf("ErrBadLightBlock at %d", T1)
+	case "backwards":
+		T1 = 2
+		kind := "forged-self"
+		if r.Bool() {
+			kind = "equivocation"
+		}
+		prim[sc.root-1] = []c09Reply{c09B(sc.mutant(sc.root-1, kind))}
+		pk = fmt.Sprintf("%s at %d", kind, sc.root-1)
+	default: // seq-interim
+		T1 = T2 + 1
+		prim[sc.root+1] = []c09Reply{c09B(sc.mutant(sc.root+1, "weak-commit"))}
+		pk = fmt.Sprintf("weak-commit at %d", sc.root+1)
+	}
+	x := sc.honestScript()
+	xk := "honest"
+	if o.forged {
+		co := c09Subset(V, level+1)
+		var keys []int
+		var pows []int64
+		for _, i := range co {
+			keys = append(keys, V.keys[i])
+			pows = append(pows, V.pows[i])
+		}
+		for i := 0; i < 2; i++ {
+			keys = append(keys, sc.freshKey())
+			pows = append(pows, int64(2+r.Intn(3)))
+		}
+		f := sc.mkVS(keys, pows)
+		sp := sc.gspec[T2]
+		sp.kind = fmt.Sprintf("forged(coalition %v power %d of %d)", co, level+1, tot)
+		sp.vs, sp.nvh, sp.app, sp.modes = f, f.hash, c09H("forged-app"), nil
+		x[T2] = []c09Reply{c09B(sc.build(sp))}
+		xk = fmt.Sprintf("forged at %d", T2)
+	}
+	sc.ops = []c09Op{{h: T1, now: sc.nowMain}, {h: T2, now: sc.nowMain}}
+	if o.extra {
+		sc.ops = append(sc.ops, c09Op{update: true, now: sc.nowMain})
+	}
+	nw := 1 + len(o.others)
+	sc.setProviders(1 + nw)
+	sc.provs[0].script, sc.provs[0].kind, sc.provs[0].validating = prim, "selfwitness-primary("+pk+")", false
+	k := 0
+	var xid int64
+	var rest []int64
+	for i, p := range sc.provs[1:] {
+		if i == o.xpos%nw {
+			p.script, p.kind, p.validating = x, "selfwitness-respondent("+xk+")", false
+			xid = p.id
+			continue
+		}
+		w := sc.honestScript()
+		w[T1] = []c09Reply{c09E(o.err1[k])}
+		switch o.others[k] {
+		case "noresp":
+			w[T2] = []c09Reply{c09E(0)}
+		case "notfound":
+			w[T2] = []c09Reply{c09E(1)}
+		case "bad":
+			w[T2] = []c09Reply{c09E(3)}
+		case "ctx":
+			w[T2] = []c09Reply{c09E(4)}
+		case "behind":
+			top := T2 - 1
+			for h := top + 1; h <= n; h++ {
+				if h != T1 {
+					w[h] = []c09Reply{c09E(2)}
+				}
+			}
+			w[0] = []c09Reply{c09B(sc.gen[top])}
+		}
+		p.script, p.kind, p.validating = w, fmt.Sprintf("E%d at %d, %s at %d", o.err1[k], T1, o.others[k], T2), r.Bool()
+		rest = append(rest, p.id)
+		k++
+	}
+	if o.shuffle {
+		for _, i := range r.Perm(len(sc.provs)) {
+			sc.order = append(sc.order, sc.provs[i].id)
+		}
+	} else {
+		sc.order = append(append(append([]int64{}, rest...), xid), 1)
+	}
+	return sc
+}
+
+func c09SelfKind(o c09SelfOpt) string {
+	mode, what := "skip", "honest"
+	if o.seq {
+		mode = "seq"
+	}
+	if o.forged {
+		what = "forged"
+	}
+	return fmt.Sprintf("selfwitness-%s-%s-%s/%s", o.entry, strings.Join(o.others, "+"), what, mode)
+}
+
+// a random member of the family: 1..3 other witnesses with individual behaviours (also helpful
+// ones), any position of the respondent, any arrival order
+func c09SelfRandom(r *vg.Rand) (*c09Scn, string) {
+	o := c09SelfOpt{seq: r.Chance(40), xpos: r.Intn(4), shuffle: r.Chance(60), extra: r.Chance(40)}
+	if o.seq {
+		o.entry = c09SelfEntries[r.Intn(3)]
+	} else {
+		o.entry = c09SelfEntries[r.Intn(2)]
+		o.forged = r.Bool()
+	}
+	all := append(append([]string{}, c09SelfOthers...), "honest", "ctx")
+	for i := 0; i < 1+r.Intn(3); i++ {
+		o.others = append(o.others, all[r.Intn(len(all))])
+		o.err1 = append(o.err1, 3+r.Intn(2))
+	}
+	sc := c09SelfWitness(r, o)
+	switch x := r.Intn(100); {
+	case x < 70:
+	case x < 85:
+		sc.num, sc.den = 1, 2
+	}
+	return sc, "random-" + c09SelfKind(o)
+}
+
 func TestVerifC09Client(t *testing.T) {
 	// one P: goroutine ids are handed out in creation order (see c09Sched.schedule); the witness
 	// goroutines are run one after another by the gate anyway
@@ -2329,6 +2499,38 @@ func TestVerifC09Client(t *testing.T) {
 			continue
 		}
 		sc, kind := c09Random(root.Fork(uint64(id)))
+		sc.run(cs, id, kind, "random scenario "+kind)
+	}
+	// self-witness family (F50); appended so that the ids of the older cases stay as they were
+	for _, seq := range []bool{false, true} {
+		for _, entry := range c09SelfEntries {
+			if entry == "seq-interim" && !seq {
+				continue
+			}
+			for _, others := range c09SelfOthers {
+				for _, forged := range []bool{false, true} {
+					if forged && seq {
+						continue // a set of the coalition's own making fails the adjacent check
+					}
+					id := cs.NextID()
+					if !cs.Want(id) {
+						continue
+					}
+					r := root.Fork(uint64(id))
+					o := c09SelfOpt{entry: entry, others: []string{others}, err1: []int{3 + r.Intn(2)}, forged: forged, seq: seq, xpos: r.Intn(2)}
+					kind := c09SelfKind(o)
+					c09SelfWitness(r, o).run(cs, id, kind, "directed F50 "+kind+
+						": a witness is promoted while the only other witness is marked bad, then serves a header no other witness confirms")
+				}
+			}
+		}
+	}
+	for k := 0; k < vg.Scale(16, 300); k++ {
+		id := cs.NextID()
+		if !cs.Want(id) {
+			continue
+		}
+		sc, kind := c09SelfRandom(root.Fork(uint64(id)))
 		sc.run(cs, id, kind, "random scenario "+kind)
 	}
 	if len(c09Blocked) > 0 {
